@@ -696,6 +696,12 @@ func numCarrier(v *TV, kind string) (any, bool) {
 			return nil, false
 		}
 		return d, true
+	case "floatany": // the nearest float64, exact or not (only where the case does not depend on the value)
+		f, err := strconv.ParseFloat(text, 64)
+		if err != nil || math.IsInf(f, 0) {
+			return nil, false
+		}
+		return f, true
 	case "float64", "float32":
 		f, err := strconv.ParseFloat(text, 64)
 		if err != nil {
